@@ -180,6 +180,17 @@ pub fn tex_scale(design_size_word: i32) -> Option<TexScale> {
     if z < 0o200000 {
         return None; // if z<unity then abort
     }
+    tex_scale_at(z)
+}
+
+/// TeX §572 alone, for the size z (in sp) at which the font is loaded. §568 replaces the
+/// design size by an `at` size s whenever 0 < s < 2^27 sp (2048pt), which may lie below 1pt;
+/// `None` outside that range (TeX reports "Improper `at' size").
+pub fn tex_scale_at(z: i64) -> Option<TexScale> {
+    if z <= 0 || z >= 0o1000000000 {
+        return None;
+    }
+    let mut z = z;
     let mut alpha: i64 = 16;
     let mut halvings = 0;
     while z >= 0o40000000 {
@@ -211,7 +222,8 @@ pub fn store_scaled(word: i32, s: &TexScale) -> Option<i64> {
 /// Returns (result, exact?) where exact means no truncation happened in the big quotient.
 pub fn store_scaled_i128(word: i32, design_size_word: i32) -> Option<(i128, bool)> {
     let ds = design_size_word as i128;
-    if ds < (1 << 20) {
+    // z = ds div 16 must be a positive size (below 2^20 the word is an `at` size under 1pt)
+    if ds < 16 {
         return None;
     }
     let mut z = ds.div_euclid(16);
@@ -236,8 +248,13 @@ pub fn store_scaled_i128(word: i32, design_size_word: i32) -> Option<(i128, bool
 // ------------------------------------------------------------------------------------
 // PLtoTF §75–80
 
-/// PLtoTF's `memory[0]`: the "infinity" that ends every sorted list.
-pub const INFINITY: i64 = 0o17777777777;
+/// PLtoTF's `memory[0]`: the "infinity" that ends every sorted list. PLtoTF uses 2^31−1 and
+/// 32-bit integers, which is enough for legal dimensions (|v| < 16.0: every `l+d` stays below
+/// 2^27). The transcription below runs on i64 and uses a sentinel above every 33-bit sum, so
+/// that it is also defined for raw PL reals up to ±2047.999999 (where the value 2^31−1 itself
+/// occurs and differences need 33 bits); on legal dimensions both sentinels give the same
+/// answers.
+pub const INFINITY: i64 = 1 << 40;
 
 /// §75 `min_cover(h,d)`: number of intervals [l, l+d] the greedy left-to-right cover needs,
 /// and `next_d`, the smallest d′>d at which the cover may change.
@@ -367,20 +384,58 @@ pub fn smallest_tolerance(sorted: &[i64], limit: usize) -> i64 {
     if sorted.is_empty() {
         return 0;
     }
-    let mut cands: Vec<i64> = vec![0];
+    let mut cands: Vec<std::cmp::Reverse<i64>> = vec![std::cmp::Reverse(0)];
     for i in 0..sorted.len() {
         for j in i + 1..sorted.len() {
-            cands.push(sorted[j] - sorted[i]);
+            cands.push(std::cmp::Reverse(sorted[j] - sorted[i]));
         }
     }
-    cands.sort_unstable();
-    cands.dedup();
-    for d in cands {
+    // candidates in increasing order (a heap instead of a full sort: the answer is often
+    // among the smallest candidates)
+    let mut heap = std::collections::BinaryHeap::from(cands);
+    let mut last = None;
+    while let Some(std::cmp::Reverse(d)) = heap.pop() {
+        if last == Some(d) {
+            continue;
+        }
+        last = Some(d);
         if greedy_count(sorted, d, limit) <= limit {
             return d;
         }
     }
     unreachable!("the full spread always admits a cover by one interval")
+}
+
+/// The same quantity straight from the statement, with no covering argument at all, for
+/// small inputs (at most 20 distinct values): the minimum, over every way of cutting the
+/// sorted values into at most `limit` consecutive runs, of the largest run spread. (An
+/// optimal partition into classes can always be taken to consist of consecutive runs: moving a
+/// value into the class whose range already contains it never increases a spread.)
+pub fn smallest_tolerance_by_enumeration(sorted: &[i64], limit: usize) -> Option<i64> {
+    let n = sorted.len();
+    if n == 0 {
+        return Some(0);
+    }
+    if n > 20 || limit == 0 {
+        return None;
+    }
+    let mut best: Option<i64> = None;
+    for cuts in 0u32..(1u32 << (n - 1)) {
+        if cuts.count_ones() as usize + 1 > limit {
+            continue;
+        }
+        let mut spread = 0i64;
+        let mut lo = sorted[0];
+        for i in 1..n {
+            if cuts >> (i - 1) & 1 == 1 {
+                spread = spread.max(sorted[i - 1] - lo);
+                lo = sorted[i];
+            }
+        }
+        spread = spread.max(sorted[n - 1] - lo);
+        best = Some(best.map_or(spread, |b: i64| b.min(spread)));
+    }
+    best
 }
 
 // ------------------------------------------------------------------------------------
